@@ -36,10 +36,12 @@ ASSUMPTIONS = [
 FLOORS = {
     "quick": {"definitions": 1500, "uses:ACCEPT": 15000, "uses:REJECT": 30000,
               "trees-compared": 15000, "roundtrips": 15000, "unregistered-probes": 5000,
-              "roundtrips-of-accepted-unspecified-uses": 1000},
+              "roundtrips-of-accepted-unspecified-uses": 1000, "derived-definitions": 300,
+              "derived-uses:ACCEPT": 3000},
     "thorough": {"definitions": 8000, "uses:ACCEPT": 150000, "uses:REJECT": 150000,
                  "trees-compared": 150000, "roundtrips": 150000, "unregistered-probes": 16000,
-                 "roundtrips-of-accepted-unspecified-uses": 8000},
+                 "roundtrips-of-accepted-unspecified-uses": 8000, "derived-definitions": 3000,
+                 "derived-uses:ACCEPT": 30000},
 }
 SHARD_TIMEOUT = {"quick": 600, "thorough": 3000}
 
@@ -87,10 +89,22 @@ def gen_definition(rng, idx):
         d["pos"].append({"name": "arg%d" % i,
                          "type": rng.choice([["string"], ["string", "stringlist"],
                                              ["number"], ["string"]])})
+    if rng.random() < 0.3:
+        # a second command whose class DERIVES from this one's class and extends its
+        # definition (one more required argument, sometimes one more tag slot); it is used
+        # after the parent has been used
+        c = {"name": name + "sub", "role": d["role"], "ext": d["ext"],
+             "slots": [dict(s) for s in d["slots"]], "pos": [dict(p) for p in d["pos"]]}
+        c["pos"].append({"name": "extra%d" % len(c["pos"]),
+                         "type": rng.choice([["string"], ["number"], ["string", "stringlist"]])})
+        if rng.random() < 0.4:
+            c["slots"].append({"name": "slotx", "tags": [":tx%s" % rng.choice("abc")],
+                               "param": rng.choice([None, {"type": "string"}])})
+        d["child"] = c
     return d
 
 
-def build_class(d):
+def build_class(d, base=None):
     from sievelib import commands as slc
     args = []
     for s in d["slots"]:
@@ -101,7 +115,8 @@ def build_class(d):
         args.append(a)
     for p in d["pos"]:
         args.append({"name": p["name"], "type": list(p["type"]), "required": True})
-    base = slc.ActionCommand if d["role"] == "action" else slc.TestCommand
+    if base is None:
+        base = slc.ActionCommand if d["role"] == "action" else slc.TestCommand
     cname = d["name"].capitalize() + "Command"
     attrs = {"args_definition": args}
     if d["ext"]:
@@ -341,7 +356,7 @@ def evaluate_definition(d, seed, others):
         if len(out["viols"]) < 12:
             out["viols"].append((sig, wit))
 
-    def roundtrip(o, data, wit):
+    def roundtrip(o, data, wit, spec):
         """generic-tree isomorphism (C03 oracle) and round trip (C04 oracle)"""
         lr = rsieve.lex(data)
         gt = rsieve.parse_generic(lr.toks)
@@ -365,79 +380,93 @@ def evaluate_definition(d, seed, others):
                  dict(wit, output=t1, diff=lab.first_diff(a, b)))
         return t1
 
-    uses = valid_uses(d, rng)
-    cases = []
-    for u in uses:
-        cases.append(u)
-    for u in rng.sample(uses, min(6, len(uses))):
-        cases.extend(invalid_variants(d, u, rng))
-    required_full = {d["ext"]} if d["ext"] else set()
-    for argtoks in cases:
-        for required in ([required_full] if not d["ext"] else
-                         [required_full] + ([set()] if rng.random() < 0.3 else [])):
-            verdict, reason, expect = interpret(d, argtoks, required)
-            toks = wrap(d, argtoks, required)
-            data = gen.join_tokens(toks)
-            o = lab.parse(data)
-            v = o.verdict()
-            cnt("uses:" + verdict)
-            cnt("cases")
-            wit = {"definition": d, "script": data.decode("utf-8", "replace"),
-                   "interpreter": [verdict, reason], "parser": str(v), "error": o.error}
-            if verdict == "UNSPEC":
-                # nothing is claimed about the verdict; but what IS accepted must still be
-                # recorded faithfully and serialise to something that re-parses to it
-                if v is True:
-                    cnt("roundtrips-of-accepted-unspecified-uses")
-                    roundtrip(o, data, wit)
-                continue
-            if verdict == "ACCEPT" and v is not True:
-                viol({"dir": "valid-use-" + ("rejected" if v is False else str(v)),
-                      "error": lab.error_class(o.error).replace(d["name"], "CUST")
-                      if v is False else
-                      (o.exc[0] if o.kind == "exc" else "hang")}, wit)
-                continue
-            if verdict == "REJECT" and v is not False:
-                viol({"dir": "invalid-use-" + ("accepted" if v is True else str(v)),
-                      "reason": reason}, wit)
-                continue
-            if verdict != "ACCEPT":
-                continue
-            # tree: recorded under the defined names, in source order
-            node = o.result[-1]
-            if d["role"] == "test":
-                node = node.arguments.get("test")
-            cnt("trees-compared")
-            got = []
-            for slot, val in node.arguments.items():
-                got.append((slot, val))
-            want = []
-            for slot, t in expect["arguments"]:
-                want.append(slot)
-            if [g[0] for g in got] != want or str(node.name) != d["name"]:
-                viol({"dir": "tree-slot-names"},
-                     dict(wit, got=[g[0] for g in got], want=want))
-            else:
-                for (slot, val), (_, t) in zip(got, expect["arguments"]):
-                    exp = t if isinstance(t, bytes) else t
-                    if not _same_value(val, exp):
-                        viol({"dir": "tree-value", "slot-kind": "tag" if isinstance(t, bytes)
-                              else "positional"}, dict(wit, slot=slot, got=repr(val),
-                                                       want=repr(exp)))
-                        break
-                for slot, ptoks in expect["extra"].items():
-                    if not _same_value(node.extra_arguments.get(slot), ptoks):
-                        viol({"dir": "tree-value", "slot-kind": "parameter"},
-                             dict(wit, slot=slot, got=repr(node.extra_arguments.get(slot)),
-                                  want=repr(ptoks)))
-                        break
-                if set(node.extra_arguments) - set(expect["extra"]):
-                    viol({"dir": "tree-extra-parameter"}, wit)
-            cnt("roundtrips")
-            t1 = roundtrip(o, data, wit)
-            if t1 is not None and out["sample"] is None:
-                out["sample"] = {"definition": d, "use": data.decode("utf-8", "replace"),
-                                 "serialised": t1}
+    def run_uses(d, spec=None):
+        if spec is None:
+            spec = dict(rsieve.SPEC)
+            spec[d["name"]] = spec_entry(d)
+        uses = valid_uses(d, rng)
+        cases = []
+        for u in uses:
+            cases.append(u)
+        for u in rng.sample(uses, min(6, len(uses))):
+            cases.extend(invalid_variants(d, u, rng))
+        required_full = {d["ext"]} if d["ext"] else set()
+        for argtoks in cases:
+            for required in ([required_full] if not d["ext"] else
+                             [required_full] + ([set()] if rng.random() < 0.3 else [])):
+                verdict, reason, expect = interpret(d, argtoks, required)
+                toks = wrap(d, argtoks, required)
+                data = gen.join_tokens(toks)
+                o = lab.parse(data)
+                v = o.verdict()
+                cnt("uses:" + verdict)
+                cnt("cases")
+                wit = {"definition": d, "script": data.decode("utf-8", "replace"),
+                       "interpreter": [verdict, reason], "parser": str(v), "error": o.error}
+                if verdict == "UNSPEC":
+                    # nothing is claimed about the verdict; but what IS accepted must still be
+                    # recorded faithfully and serialise to something that re-parses to it
+                    if v is True:
+                        cnt("roundtrips-of-accepted-unspecified-uses")
+                        roundtrip(o, data, wit, spec)
+                    continue
+                if verdict == "ACCEPT" and v is not True:
+                    viol({"dir": "valid-use-" + ("rejected" if v is False else str(v)),
+                          "error": lab.error_class(o.error).replace(d["name"], "CUST")
+                          if v is False else
+                          (o.exc[0] if o.kind == "exc" else "hang")}, wit)
+                    continue
+                if verdict == "REJECT" and v is not False:
+                    viol({"dir": "invalid-use-" + ("accepted" if v is True else str(v)),
+                          "reason": reason}, wit)
+                    continue
+                if verdict != "ACCEPT":
+                    continue
+                # tree: recorded under the defined names, in source order
+                node = o.result[-1]
+                if d["role"] == "test":
+                    node = node.arguments.get("test")
+                cnt("trees-compared")
+                got = []
+                for slot, val in node.arguments.items():
+                    got.append((slot, val))
+                want = []
+                for slot, t in expect["arguments"]:
+                    want.append(slot)
+                if [g[0] for g in got] != want or str(node.name) != d["name"]:
+                    viol({"dir": "tree-slot-names"},
+                         dict(wit, got=[g[0] for g in got], want=want))
+                else:
+                    for (slot, val), (_, t) in zip(got, expect["arguments"]):
+                        exp = t if isinstance(t, bytes) else t
+                        if not _same_value(val, exp):
+                            viol({"dir": "tree-value", "slot-kind": "tag" if isinstance(t, bytes)
+                                  else "positional"}, dict(wit, slot=slot, got=repr(val),
+                                                           want=repr(exp)))
+                            break
+                    for slot, ptoks in expect["extra"].items():
+                        if not _same_value(node.extra_arguments.get(slot), ptoks):
+                            viol({"dir": "tree-value", "slot-kind": "parameter"},
+                                 dict(wit, slot=slot, got=repr(node.extra_arguments.get(slot)),
+                                      want=repr(ptoks)))
+                            break
+                    if set(node.extra_arguments) - set(expect["extra"]):
+                        viol({"dir": "tree-extra-parameter"}, wit)
+                cnt("roundtrips")
+                t1 = roundtrip(o, data, wit, spec)
+                if t1 is not None and out["sample"] is None:
+                    out["sample"] = {"definition": d, "use": data.decode("utf-8", "replace"),
+                                     "serialised": t1}
+
+    run_uses(d, spec)
+    if d.get("child"):
+        c = d["child"]
+        slc.add_commands(build_class(c, base=cls))
+        cnt("derived-definitions")
+        before = out["counts"].get("uses:ACCEPT", 0)
+        run_uses(c)
+        cnt("derived-uses:ACCEPT", out["counts"].get("uses:ACCEPT", 0) - before)
+        run_uses(d, spec)  # and the parent again, after the child has been used
     # unregistered names remain unknown
     for nm in ["foobar"] + others:
         for tmpl in (b"%s;", b'%s "a";', b"if %s { keep; }"):
